@@ -16,6 +16,12 @@ type ChangelogCfg struct {
 	Dups        bool                                          // allow re-inserting an already present row
 	Row         func(t *Tape, i int, sec int) []octosql.Value // i-th fresh row; sec is its event time (0 in batch mode)
 	FinalWM     bool                                          // allow a trailing watermark
+	// RetractSameTime: a retraction carries exactly its insertion's event time, and is
+	// therefore only generated while that time is still above the source's watermark
+	// (rows whose time is a column: the retraction names the same row, hence the same time).
+	RetractSameTime bool
+	// ZeroTimeMix: in watermarked mode some records carry a zero event time (batch rows in a stream).
+	ZeroTimeMix bool
 }
 
 type presentRow struct {
@@ -41,7 +47,15 @@ func GenChangelog(t *Tape, cfg ChangelogCfg) []Msg {
 			break
 		}
 		wIns, wRet, wWM := 5, 0, 0
-		if cfg.Retractions && len(present) > 0 {
+		var retractable []int
+		if cfg.Retractions {
+			for i := range present {
+				if !cfg.RetractSameTime || !cfg.Watermarked || present[i].sec > wm || present[i].sec == 0 {
+					retractable = append(retractable, i)
+				}
+			}
+		}
+		if len(retractable) > 0 {
 			wRet = 2
 		}
 		if cfg.Watermarked {
@@ -52,10 +66,24 @@ func GenChangelog(t *Tape, cfg ChangelogCfg) []Msg {
 			sec := 0
 			if cfg.Watermarked {
 				sec = wm + 1 + t.Draw(4)
+				if cfg.ZeroTimeMix && t.Chance(1, 6) {
+					sec = 0
+				}
 			}
 			var vals []octosql.Value
 			if cfg.Dups && len(present) > 0 && t.Chance(1, 5) {
-				vals = present[t.Draw(len(present))].vals
+				p := present[t.Draw(len(present))]
+				vals = p.vals
+				if cfg.RetractSameTime && cfg.Watermarked {
+					// the time is part of the row: a duplicate has the same time, so it
+					// is only possible while that time is not yet behind the watermark
+					if p.sec > wm || p.sec == 0 {
+						sec = p.sec
+					} else {
+						vals = cfg.Row(t, fresh, sec)
+						fresh++
+					}
+				}
 			} else {
 				vals = cfg.Row(t, fresh, sec)
 				fresh++
@@ -63,16 +91,18 @@ func GenChangelog(t *Tape, cfg ChangelogCfg) []Msg {
 			present = append(present, presentRow{vals, sec})
 			msgs = append(msgs, Msg{Kind: MsgRec, Values: vals, ET: T(sec)})
 		case 1:
-			i := t.Draw(len(present))
+			i := retractable[t.Draw(len(retractable))]
 			p := present[i]
 			present = append(present[:i:i], present[i+1:]...)
 			sec := 0
-			if cfg.Watermarked {
+			if cfg.Watermarked && p.sec != 0 {
 				sec = p.sec
-				if sec <= wm {
-					sec = wm + 1
+				if !cfg.RetractSameTime {
+					if sec <= wm {
+						sec = wm + 1
+					}
+					sec += t.Draw(2)
 				}
-				sec += t.Draw(2)
 			}
 			msgs = append(msgs, Msg{Kind: MsgRec, Values: p.vals, Retr: true, ET: T(sec)})
 		case 2:
